@@ -742,7 +742,7 @@ class LogixDriver(CIPDriver):
                     return_response_packet=True,
                 )
                 response_pkt = response.value
-                if response_pkt.service_status not in (SUCCESS, INSUFFICIENT_PACKETS):
+                if response_pkt.command_status != SUCCESS or response_pkt.service_status not in (SUCCESS, INSUFFICIENT_PACKETS):
                     raise ResponseError("Error reading template", response)
 
                 template_raw += response_pkt.data
